@@ -140,6 +140,17 @@ func (c *Context) Copy() *Context {
 	if len(c.Errors) > 0 {
 		ctx.Errors = append([]error(nil), c.Errors...)
 	}
+	// the copy is made for another goroutine while the request goes on using c: the data and params
+	// maps must not be shared either.
+	if c.data != nil {
+		ctx.data = make(map[string]any, len(c.data))
+		for k, v := range c.data {
+			ctx.data[k] = v
+		}
+	}
+	if c.Params != nil {
+		ctx.Params = c.Params.clone()
+	}
 	return &ctx
 }
 
